@@ -88,6 +88,24 @@ def run(index, tier="quick", seed=0) -> Result:
                 f"right only for solids star-shaped about the centroid (U-shapes, frames are wrong)")
     else:
         res.ok("DET-SIGN", "Polyhedron._compute_inertia_tensor")
+    # ---------------------------------------------------------------- AREA-1 every face area is a polygon area of the whole face
+    from ..interp import Interp
+    gfa = cls.methods.get("get_face_area")
+    if gfa is None:
+        raise AnalysisError("anchor vanished: Polyhedron.get_face_area")
+    it = Interp(index)
+    r = it.run_entry(gfa, cls)
+    rets = {n_.value.id for n_ in ast.walk(gfa.node) if isinstance(n_, ast.Return) and isinstance(n_.value, ast.Name)}
+    stores = [e for e in r["events"] if e.type == "local-store" and e.name in rets and e.func is gfa]
+    if not stores:
+        res.not_in_fragment.append("AREA-1: stores into the returned array not found")
+    else:
+        bad_st = [e for e in stores if not any(isinstance(t, tuple) and t == ("getter", "area") for t in e.value.tags)]
+        if bad_st:
+            res.bad("AREA-1", "Polyhedron.get_face_area:shortcut", bad_st[0].where(), f"Polyhedron.get_face_area stores `{bad_st[0].src()[:60]}`, which is not the "
+                    f"area of the polygon spanned by all vertices of the face (a shortcut formula is right only for special face shapes)")
+        else:
+            res.ok("AREA-1", "Polyhedron.get_face_area")
     # ---------------------------------------------------------------- SIGN-1
     _sign_convention(res, index)
     from ..parallel import report as _copy1
